@@ -246,6 +246,8 @@ def gen_scenario(rng, knobs=None):
             ops.append(["write", rng.randrange(n)])
         else:
             e = rng.randrange(ne) if rng.random() >= K["unknown_ev"] else rng.randint(ne, ne + 2) + (10 if rng.random() < 0.5 else 0)
+            if e >= ne and rng.random() < K.get("attr_unknown", 0.0):
+                e = rng.randint(800, 809)        # an undeclared name that is another attribute of the machine
             ops.append(["send", e, tag])
     style = rng.choice(K["styles"])
     if style == "assign":
@@ -421,7 +423,7 @@ def gen_scenario(rng, knobs=None):
                for _ in range(rng.randint(1, 2))] if rng.random() < K.get("decoys", 0.0) else [])
     inst_l = rng.random() < K.get("inst_listeners", 0.0)
     # exceptions of callbacks that derive from classes Python / asyncio give a meaning to
-    exc_classes = (rng.sample(["runtime", "attr", "key", "type", "notimpl"], rng.randint(1, 3))
+    exc_classes = (rng.sample(["runtime", "attr", "key", "type", "notimpl", "falsy", "falsy"], rng.randint(1, 3))
                    if rng.random() < K.get("exc_classes", 0.0) else [])
     # attribute guards that are properties (their value may change from read to read, a read may raise)
     prop_guards = False
@@ -465,7 +467,16 @@ def gen_scenario(rng, knobs=None):
         eqgroups = {str(p_): rng.randint(1, 2) for p_ in range(2, len(provs))}
         eqgroups["3"] = eqgroups["2"]
     alias_inherit = style == "assign" and not any_group and rng.random() < K.get("alias_inherit", 0.0)
-    return {"eqgroups": eqgroups, "alias_inherit": alias_inherit, "exc_classes": exc_classes, "prop_guards": prop_guards, "inst_hooks": inst_hooks, "twin_decoy": twin_decoy,
+    falsy_listeners = [p_ for p_ in range(2, len(provs)) if rng.random() < K.get("falsy_listeners", 0.0)]
+    extend_event = None
+    if (style in ("str", "list") and not any_group and not alias_inherit and values is None
+            and rng.random() < K.get("extend_inherit", 0.0)):
+        extend_event = ne
+        ne += 1
+        for t in trans:
+            t["ev"] = t["ev"] + [extend_event]
+        ops = [(["send", extend_event, op[2]] if (op[0] == "send" and rng.random() < 0.4) else op) for op in ops]
+    return {"extend_event": extend_event, "falsy_listeners": falsy_listeners, "bound_refs": bool(callable_names) and rng.random() < K.get("bound_refs", 0.0), "eqgroups": eqgroups, "alias_inherit": alias_inherit, "exc_classes": exc_classes, "prop_guards": prop_guards, "inst_hooks": inst_hooks, "twin_decoy": twin_decoy,
             "sig_attr": rng.random() < K.get("sig_attr", 0.0), "lstyles": lstyles, "recording_model": rng.random() < K.get("recording_model", 0.0),
             "user_tna": rng.random() < K.get("user_tna", 0.0), "wrapped_coros": wrapped_coros, "base_exc": rng.random() < K.get("base_exc", 0.0), "stop_iter": rng.random() < K.get("stop_iter", 0.0), "any_group": any_group, "hosted": hosted, "callable_names": callable_names, "state_decor": state_decor, "decor": decor,
             "evstyle": style, "mixed": mixed, "values": values, "async": acoro, "falsy_machine": rng.random() < K["falsy_machine"], "n": n, "initial": initial, "finals": finals, "ne": ne, "trans": trans, "states": states,
